@@ -38,8 +38,17 @@ def msg(e):
 def planted(rng):
     bad = rng.choice(BAD)
     reach = rng.choice([True, False])
-    kind = rng.choice(['condition', 'repeat', 'switch', 'define-unused', 'nested', 'two-sites', 'two-sites', 'switch-expr', 'dict-attr', 'attr-then-dict', 'literal-condition', 'literal-condition'])
-    if kind == 'literal-condition':
+    kind = rng.choice(['condition', 'repeat', 'switch', 'define-unused', 'nested', 'two-sites', 'two-sites', 'switch-expr', 'dict-attr', 'attr-then-dict', 'literal-condition', 'literal-condition',
+                       'placeholder', 'placeholder'])
+    if kind == 'placeholder':
+        # the element's own markup under tal:content / tal:replace is rendered only when the expression gives `default`: it is compiled all the same
+        st = rng.choice(['content', 'replace'])
+        reach = rng.random() < 0.5
+        expr = 'default' if reach else rng.choice(["'x'", 'v', 'None'])
+        inner = rng.choice(['${%s}' % bad, '<i tal:content="%s">y</i>' % bad, 'a <b title="${%s}">b</b>' % bad])
+        src = '<div><p tal:%s="%s">%s</p>tail</div>' % (st, expr, inner)
+        vars_ = [['v', {'str': 'V'}]]
+    elif kind == 'literal-condition':
         # the guard is a literal: the site is unreachable (or reachable) whatever the bindings — it is compiled all the same
         lit, reach = rng.choice([('False', False), ('0', False), ('None', False), ("''", False), ('python: 0', False), ('string:', False), ('exists: nope', False),
                                  ('True', True), ('1', True), ("'y'", True), ('python: 1', True), ('string:y', True)])
